@@ -25,7 +25,7 @@ import (
 	"reflect"
 	"strings"
 	"testing"
-	"testing/synctest"
+	"time"
 
 	"github.com/apernet/hysteria/extras/v2/outbounds/acl"
 	"verif.local/hysim"
@@ -1011,8 +1011,7 @@ func execC09(x *hysim.Run) {
 		x.NonTrivial()
 	}
 	x.Drain(0)
-	synctest.Wait()
-	if al := x.Alive(); len(al) != 0 {
+	if al := x.WaitTasks(time.Second); len(al) != 0 {
 		x.Violate("goroutine-leak", "caller tasks still alive: %v", al)
 	}
 }
@@ -1333,8 +1332,7 @@ func execC09eng(x *hysim.Run) {
 		x.NonTrivial()
 	}
 	x.Drain(0)
-	synctest.Wait()
-	if al := x.Alive(); len(al) != 0 {
+	if al := x.WaitTasks(time.Second); len(al) != 0 {
 		x.Violate("goroutine-leak", "caller tasks still alive: %v", al)
 	}
 }
